@@ -194,6 +194,18 @@ def remine(cs, summary, txs, max_tries=200000):
     raise RuntimeError("no nonce found")
 
 
+def wire_transaction(inputs, outs):
+    """a transaction as it arrives from the wire, with any 64-bit pattern in its amount fields: built with place-holder amounts,
+    the place-holders replaced in the encoding, decoded by the node's decoder. `outs`: (amount 0 ≤ v < 2^64, public key object)"""
+    marks = [0x0101010101010100 + i for i in range(len(outs))]
+    raw = Transaction(list(inputs), [Output(m, pk) for m, (_, pk) in zip(marks, outs)]).serialize()
+    for m, (v, _) in zip(marks, outs):
+        mb = m.to_bytes(8, "big")
+        assert raw.count(mb) == 1
+        raw = raw.replace(mb, v.to_bytes(8, "big"))
+    return Transaction.deserialize(raw)
+
+
 def genesis_block():
     return Block.deserialize(genesis_block_data)
 
@@ -218,13 +230,38 @@ def _short(b):
     return b[:8].hex()
 
 
+_MAP_DIGESTS = {}      # digests of immutable maps (immutables.Map values are shared between chain states), by identity
+
+
+def _memo(kind, m, compute):
+    if type(m) is not immutables.Map:
+        return compute(m)            # anything that could be changed in place is digested afresh every time
+    key = (kind, id(m))
+    hit = _MAP_DIGESTS.get(key)
+    if hit is not None and hit[0] is m:
+        return hit[1]
+    d = compute(m)
+    if len(_MAP_DIGESTS) > 200000:
+        _MAP_DIGESTS.clear()
+    _MAP_DIGESTS[key] = (m, d)
+    return d
+
+
 def utxo_digest(u):
+    return _memo("u", u, _utxo_digest)
+
+
+def index_digest(m):
+    return _memo("i", m, _index_digest)
+
+
+def _utxo_digest(u):
     rows = sorted(r.hash + struct.pack(">I", r.index) + struct.pack(">Q", o.value) + o.public_key.public_key
                   for r, o in u.items())
     return _short(hashlib.sha256(b"".join(rows)).digest())
 
 
-def index_digest(m):
+def _index_digest(m):
     rows = sorted(struct.pack(">Q", h) + b.hash() for h, b in m.items())
     return _short(hashlib.sha256(b"".join(rows)).digest())
 
